@@ -3,7 +3,7 @@
    epoch, to any key incl. earlier ones and other operators' current / previous / not-yet-pruned keys —, opt-out,
    undelegation, change of EpochsUntilUnbonded) and block boundaries NextBlock sel tick with ANY validator selection. *)
 From Coq Require Import List Bool ZArith.
-From Exo Require Import Base.Util Dogfood.Model Dogfood.Proofs C07.Model C07.Proofs.
+From Exo Require Import Base.Util Dogfood.Model Dogfood.Proofs C07.Model C07.Proofs C07.ProofsPrev.
 Import ListNotations.
 Local Open Scope Z_scope.
 
@@ -146,6 +146,23 @@ Example C07_deselected_key_kept :
   (vs ex_state 11, vs s 11, cur s, k_rev s 11, q_prune s) = (true, false, 6, Some 1, [(8, 11)]).
 Proof. vm_compute. reflexivity. Qed.
 
+(* The previous key is recorded once per epoch: the first accepted replacement A -> B of an epoch records A, and A is
+   still the recorded previous key after ANY later history without an EndBlock — further replacements B -> C -> ...
+   included — so [validating] (the test that decides whether an undelegation is held) keeps looking at the key that is
+   still in the active set. (An EndBlock that does not follow an epoch end changes nothing: [end_block_mid_epoch].) *)
+Theorem C07_prev_key_once_per_epoch : forall s o k pk ops,
+  k_rm s o = false -> k_rev s k = None -> k_op s o = Some pk -> pk <> k -> k_prev s o = None ->
+  Forall not_end_block ops ->
+  k_prev (fst (set_key s o k)) o = Some pk /\ k_op (fst (set_key s o k)) o = Some k /\
+  snd (set_key s o k) = ROk /\
+  k_prev (run (fst (set_key s o k)) ops) o = Some pk.
+Proof.
+  intros s o k pk ops R V K NE P F.
+  destruct (first_replacement_records_thm s o k pk R V K NE P) as (A & B & C).
+  repeat split; try assumption. exact (prev_key_once_per_epoch_thm s o k pk ops R V K NE P F).
+Qed.
+Print Assumptions C07_prev_key_once_per_epoch.
+
 (* ---- non-vacuity ---- *)
 Example C07_inv_satisfiable : Inv ex_state.
 Proof. exact ex_state_inv. Qed.
@@ -160,3 +177,9 @@ Example ex_run :
   (cur s, k_op s 0, k_rev s 10, k_rev s 12, k_op s 1, k_rm s 1, q_prune s, q_opt s) =
   (7, Some 13, Some 0, Some 0, Some 11, true, [(7, 10)], [(7, 1)]).
 Proof. vm_compute. reflexivity. Qed.
+
+(* C07_prev_key_once_per_epoch on the example state: operator 0 holds key 10 (active); 10 -> 12 -> 13 in one epoch *)
+Example ex_prev_once :
+  (k_rm ex_state 0, k_rev ex_state 12, k_op ex_state 0, k_prev ex_state 0) = (false, None, Some 10, None) /\
+  k_prev (run (fst (set_key ex_state 0 12)) [SetKey 0 13; Undelegate 0 77; SetKey 0 14]) 0 = Some 10.
+Proof. vm_compute. auto. Qed.
